@@ -121,7 +121,7 @@ Print Assumptions C01_parallel_status.
 (* ---- the tool on bytes ---- *)
 Theorem C01_tool_bytes :
   forall (key : list Z -> N) (input : list Z),
-  dedupe_tool key input = Ok (unrecords newline (first_occ (list Z) key (records newline true input))).
+  dedupe_tool key input = Ok (unrecords newline (first_occ (list Z) key (tool_lines input))).
 Proof. intros. unfold dedupe_tool. rewrite dedupe_first_occ. reflexivity. Qed.
 Print Assumptions C01_tool_bytes.
 
@@ -134,7 +134,7 @@ Theorem C01_tool_complete :
   forall (fields : list Z) (d : Z) (input : list Z) rs,
   nonul fields -> parse_key_spec fields = Some rs ->
   dedupe_tool_real fields d input =
-    ToolOk (unrecords newline (first_occ (list Z) (key_fn rs d) (records newline true input))).
+    ToolOk (unrecords newline (first_occ (list Z) (key_fn rs d) (tool_lines input))).
 Proof. exact dedupe_tool_real_spec. Qed.
 Print Assumptions C01_tool_complete.
 
@@ -183,49 +183,42 @@ Example C01_nonvacuous_no_collision :
   (forall x, In x [5; 3; 5]%nat -> forall y, In y [5; 3; 5]%nat -> N.of_nat x = N.of_nat y -> x = y).
 Proof. intros x _ y _ H. now apply Nat2N.inj. Qed.
 
-(* ---- byte-level idempotence: open finding F-C01-idempotence-trailing-CR ----
-   The full statement (the property's "running dedupe on its own output changes nothing", on bytes): *)
-Definition C01_tool_idempotent_statement : Prop :=
+(* ---- byte-level idempotence (finding F-C01-idempotence-trailing-CR, fixed) ----
+   FilterParallel now reads lines WITHOUT CR stripping (parallel_strip_cr = false, regenerated from
+   parallel.hh), so the kept lines are written byte for byte and the output is read back as exactly the
+   lines that were written: running dedupe on its own output changes nothing, for every key function and
+   every input.  (With strip_cr = true this was false: "y\n" "y\r\r\n" -> "y\n" "y\r\n" -> "y\n".) *)
+Lemma parallel_reads_lines_unchanged : parallel_strip_cr = false.
+Proof. reflexivity. Qed.
+
+Theorem C01_tool_idempotent :
   forall (key : list Z -> N) (input out : list Z), dedupe_tool key input = Ok out -> dedupe_tool key out = Ok out.
-
-(* an injective key on short lines, for the witness *)
-Definition wkey (l : list Z) : N := fold_left (fun acc b => acc * 257 + Z.to_N b + 1) l 0.
-
-(* refuted by the faithful model: "y\n" "y\r\r\n" -> both kept ("y" and "y\r"); reading that output again
-   strips the CR of "y\r\n" and the second run drops it.  Replayed on bin/dedupe by checks/C01.py. *)
-Theorem C01_tool_idempotent_refuted :
-  exists (key : list Z -> N) (input out : list Z),
-    dedupe_tool key input = Ok out /\ dedupe_tool key out <> Ok out.
 Proof.
-  exists wkey, [121; 10; 121; 13; 13; 10]%Z, [121; 10; 121; 13; 10]%Z.
-  split; [vm_compute; reflexivity|]. vm_compute. discriminate.
-Qed.
-Print Assumptions C01_tool_idempotent_refuted.
-
-(* what does hold on bytes: idempotence whenever CR stripping is the identity on the lines dedupe wrote
-   (none of them ends in CR) -- then the output is read back as exactly the lines that were written.
-   MISSING for the unconditional byte-level statement: nothing; it is false (theorem above). *)
-Theorem C01_tool_idempotent_partial :
-  forall (key : list Z -> N) (input out : list Z),
-  dedupe_tool key input = Ok out ->
-  (forall l, In l (first_occ (list Z) key (records newline true input)) -> strip_cr l = l) ->
-  dedupe_tool key out = Ok out.
-Proof.
-  intros key input out H Hcr. rewrite C01_tool_bytes in H. injection H as <-.
+  intros key input out H. rewrite C01_tool_bytes in H. injection H as <-.
   rewrite C01_tool_bytes.
-  assert (Hnd : forallb (no_delim newline) (first_occ (list Z) key (records newline true input)) = true).
+  assert (Hnd : forallb (no_delim newline) (first_occ (list Z) key (tool_lines input)) = true).
   { apply forallb_forall. intros l Hl.
-    pose proof (records_nodelim newline true input) as Hall. rewrite forallb_forall in Hall. apply Hall.
+    pose proof (records_nodelim newline parallel_strip_cr input) as Hall. rewrite forallb_forall in Hall. apply Hall.
     eapply Subseq_In; [apply first_occ_from_subseq|exact Hl]. }
-  rewrite (records_unrecords_cr newline _ Hnd Hcr). f_equal. f_equal. apply first_occ_from_idem.
+  assert (E : tool_lines (unrecords newline (first_occ (list Z) key (tool_lines input))) = first_occ (list Z) key (tool_lines input)).
+  { unfold tool_lines at 1. rewrite parallel_reads_lines_unchanged. apply records_unrecords. exact Hnd. }
+  rewrite E. f_equal. f_equal. apply first_occ_from_idem.
 Qed.
-Print Assumptions C01_tool_idempotent_partial.
+Print Assumptions C01_tool_idempotent.
 
-(* non-vacuity of its hypotheses: ordinary text lines *)
-Example C01_nonvacuous_idempotent_bytes :
-  (forall l, In l (first_occ (list Z) wkey (records newline true [97; 10; 98; 13; 10; 97; 10]%Z)) -> strip_cr l = l) /\
-  dedupe_tool wkey [97; 10; 98; 13; 10; 97; 10]%Z = Ok [97; 10; 98; 10]%Z.
+(* every output line is an input line with all its bytes (a trailing CR included), in input order *)
+Theorem C01_tool_lines_unchanged :
+  forall (key : list Z -> N) (input out : list Z), dedupe_tool key input = Ok out ->
+  exists kept, out = unrecords newline kept /\ Subseq kept (records newline false input).
 Proof.
-  split; [|vm_compute; reflexivity].
-  intros l H. vm_compute in H. destruct H as [<-|[<-|[]]]; reflexivity.
+  intros key input out H. rewrite C01_tool_bytes in H. injection H as <-.
+  eexists. split; [reflexivity|]. unfold tool_lines. rewrite parallel_reads_lines_unchanged. apply first_occ_from_subseq.
 Qed.
+Print Assumptions C01_tool_lines_unchanged.
+
+(* the former counterexample, now idempotent: both "y" and "y\r\r" are kept, twice *)
+Definition wkey (l : list Z) : N := fold_left (fun acc b => acc * 257 + Z.to_N b + 1) l 0.
+Example C01_nonvacuous_idempotent_bytes :
+  dedupe_tool wkey [121; 10; 121; 13; 13; 10; 121; 10]%Z = Ok [121; 10; 121; 13; 13; 10]%Z /\
+  dedupe_tool wkey [121; 10; 121; 13; 13; 10]%Z = Ok [121; 10; 121; 13; 13; 10]%Z.
+Proof. split; vm_compute; reflexivity. Qed.
